@@ -145,6 +145,17 @@ def h_algebra(ctx, cfg):
             ctx.require('exactly-the-declaring-inputs[%s]' % op,
                         len(got) == len(want) and all(any(g is w for g in got) for w in want),
                         lambda: dict(info(), name=p.name))
+    if op == 'merge' and len(fns) == 2:
+        # a name that is positional-or-keyword in one input and keyword-only in the other is the same logical
+        # parameter (merge reports it keyword-only): both inputs are its sources
+        kinds = [dict(zip(s.names, s.kinds)) for s in specs]
+        for p in R.parameters.values():
+            ks = sorted(k.get(p.name, -1) for k in kinds)
+            if p.kind == p.KEYWORD_ONLY and ks == [1, 2]:
+                got = R.sources.get(p.name, [])
+                ctx.require('pok-and-kwo-contributors-both-listed[merge]',
+                            len(got) == 2 and all(any(g is f for g in got) for f in fns),
+                            lambda: dict(info(), name=p.name))
     if op == 'modifiers' and extra['kwo']:
         inside = [k for k, v in R.sources.items() if k != '+depths' and any(x is fns[0] for x in v)]
         ctx.require('wrapper-object-replaces-wrapped-function', not inside and not any(d is fns[0] for d in depths),
